@@ -49,6 +49,50 @@ func (p *Prog) ownerChain(fn *ssa.Function) []string {
 	return out
 }
 
+// ownedBy reports whether code in fn can be attributed to one of the allowed
+// owners: fn's top-level function is allowed, or it is an unexported helper
+// all of whose static callers are (recursively) attributable. It returns the
+// owner found first.
+func (p *Prog) ownedBy(fn *ssa.Function, allowed func(name string) bool) (string, bool) {
+	seen := map[*ssa.Function]bool{}
+	var rec func(f *ssa.Function, depth int) (string, bool)
+	rec = func(f *ssa.Function, depth int) (string, bool) {
+		top := TopLevel(f)
+		if allowed(fnName(top)) {
+			return fnName(top), true
+		}
+		if depth > 4 || seen[top] {
+			return "", false
+		}
+		seen[top] = true
+		if top.Object() == nil || top.Object().Exported() {
+			return "", false
+		}
+		n := p.CG.Nodes[top]
+		if n == nil {
+			return "", false
+		}
+		owner := ""
+		cnt := 0
+		for _, e := range n.In {
+			if e.Caller.Func == nil || e.Site == nil || e.Site.Common().StaticCallee() != top {
+				continue
+			}
+			cnt++
+			o, ok := rec(e.Caller.Func, depth+1)
+			if !ok {
+				return "", false
+			}
+			owner = o
+		}
+		if cnt == 0 {
+			return "", false
+		}
+		return owner, true
+	}
+	return rec(fn, 0)
+}
+
 // whoRule: the frozen who-may-write table. Each entry names the functions
 // (top-level, closures are attributed to their enclosing function) that may
 // store to a field, with the reason. A store anywhere else is a violation:
@@ -75,12 +119,10 @@ func ruleWho(entries []whoEntry) func(c *Ctx) {
 			for _, n := range names {
 				c.inst(1)
 				pos := c.P.InstrPos(ws[n][0])
-				owner, reason, ok := n, "", false
-				for _, cand := range c.P.ownerChain(ws[n][0].Parent()) {
-					if r, has := e.Writers[cand]; has {
-						owner, reason, ok = cand, r, true
-						break
-					}
+				owner, ok := c.P.ownedBy(ws[n][0].Parent(), func(nm string) bool { _, has := e.Writers[nm]; return has })
+				reason := e.Writers[owner]
+				if !ok {
+					owner = n
 				}
 				if ok {
 					if owner != n {
@@ -132,12 +174,9 @@ func ruleStateTable(field string, names map[int64]string, table []stateWrite) fu
 				continue
 			}
 			key := fmt.Sprintf("%s=%d", top, k)
-			for _, cand := range c.P.ownerChain(st.Parent()) {
-				if _, has := allowed[fmt.Sprintf("%s=%d", cand, k)]; has {
-					top = cand
-					key = fmt.Sprintf("%s=%d", cand, k)
-					break
-				}
+			if o, ok := c.P.ownedBy(st.Parent(), func(nm string) bool { _, has := allowed[fmt.Sprintf("%s=%d", nm, k)]; return has }); ok {
+				top = o
+				key = fmt.Sprintf("%s=%d", o, k)
 			}
 			nm := names[k]
 			if why, ok := allowed[key]; ok {
